@@ -174,6 +174,14 @@ func registerIntrinsics(e *Engine) {
 	I[nd+"Depth"] = func(e *Engine, st *State, th *Thread, args []Value, call *ssa.CallCommon) (Value, bool) {
 		return e.i64(uint64(len(th.Frames))), true
 	}
+	I[nd+"StackLimit"] = func(e *Engine, st *State, th *Thread, args []Value, call *ssa.CallCommon) (Value, bool) {
+		n := args[0].(*smt.Term)
+		if !n.IsConst() {
+			e.unsupported("nd.StackLimit with a symbolic limit")
+		}
+		st.StackLimit = int(n.Val)
+		return nil, true
+	}
 	I[nd+"LazyTimers"] = func(e *Engine, st *State, th *Thread, args []Value, call *ssa.CallCommon) (Value, bool) {
 		st.LazyTimers = args[0].(*smt.Term).IsTrue()
 		return nil, true
